@@ -406,7 +406,7 @@ Proof.
   - apply IH.
   - (* JustCfg *) unfold just_go. destruct (just_loop K toks spn (val_toks (cval ctx)) s) as [[] s1] eqn:E; [auto with gd|].
     apply good_err. eapply just_loop_good; eauto.
-  - (* Memo *) cbn [memo_on no_quirks negb]. apply IH.
+  - (* Memo *) cbn [memo_on no_quirks negb]. sg IH n m g ctx (set_alt s None); try (auto with gd; fail); good_err_tac.
   - apply IH.
   - destruct (nth_error (crec ctx) k); [apply IH|]. repeat split; cbn; discriminate.
   - (* Pratt *) apply (proj1 (pratt_good _ IH m g ops ctx n)).
